@@ -979,7 +979,8 @@ def r93(ctx: Ctx) -> RuleReport:
         return rep
     _, ip, sp, tp_ = fi.positional[:4]
     cfg = CFG(fi.node)
-    loops = [n for n in walk_local(fi.node) if isinstance(n, ast.For) and isinstance(n.target, ast.Tuple) and len(n.target.elts) == 3 and 'dereifications' in norm(n.iter)]
+    loops = [n for n in walk_local(fi.node) if isinstance(n, ast.For) and isinstance(n.target, ast.Tuple) and len(n.target.elts) == 3
+             and ('dereifications' in norm(n.iter) or 'dereifications' in norm(expand(ctx, fi, n.iter, n)))]
     if len(loops) != 1:
         rep.undecided(f'{fi.fq}: one loop over the (role, source role, target role) entries of the concept', fi.loc(), f'{len(loops)} loops')
         return rep
